@@ -20,8 +20,8 @@ RULE = ("(a) form: allocate_code(n), n=0..8, called at once / after the welcome 
         "the three code calls. Non-trivial/distinct = distinct (sub-workload, input) tuples.")
 ASSUMPTIONS = ["os.urandom itself is uniform (quality of the OS generator is out of scope)",
                "unicode decimal digits count as numeric (client and server both use \\d); only U+0020 is a space"]
-FLOORS = {"quick": {"entropy_draws_checked": 9000, "form_codes": 60, "rejections": 600, "completions_checked": 3000, "code_call_sequences": 100, "out_of_order_helper_calls": 40, "codes_entered_by_completion": 100},
-          "thorough": {"entropy_draws_checked": 9000, "form_codes": 1500, "rejections": 60000, "completions_checked": 100000, "code_call_sequences": 3000, "out_of_order_helper_calls": 1500, "codes_entered_by_completion": 3000}}
+FLOORS = {"quick": {"entropy_draws_checked": 9000, "form_codes": 60, "rejections": 600, "completions_checked": 3000, "code_call_sequences": 100, "out_of_order_helper_calls": 40, "codes_entered_by_completion": 100, "typed_words_rejections": 60},
+          "thorough": {"entropy_draws_checked": 9000, "form_codes": 1500, "rejections": 60000, "completions_checked": 100000, "code_call_sequences": 3000, "out_of_order_helper_calls": 1500, "codes_entered_by_completion": 3000, "typed_words_rejections": 2000}}
 NAMEPLATES = ["1", "7", "42", "999", "1000", "123456789", "007", "0", "00", "٣", "４２"]
 
 
@@ -226,6 +226,7 @@ def run_reject(spec):
     sch.run(100)
     viol = []
     n = 0
+    words_rejections = [0]
     side_a, side_b = a.w._boss._side, b.w._boss._side
     for (kind, code) in bad_codes(rng, 40):
         for (who, fn, side) in (("set_code", lambda c: a.w.set_code(c), side_a),
@@ -258,6 +259,28 @@ def run_reject(spec):
     # the wormholes are still usable afterwards
     a.call("set_code", "5-purple-sausages")
     helper.choose_nameplate("5")
+    # the words typed at the prompt complete the code: words that make it malformed (a space) are rejected like
+    # any other malformed code, and nothing of the key exchange is sent for them
+    sch.run(60)
+    for words in rng.sample(["purple sausages", " purple-sausages", "purple-sausages ", "purple- sausages", "a b c", " "], 3):
+        before = len([1 for (c, s, m) in world.server_cmds if s == side_b])
+        try:
+            helper.choose_words(words)
+            got = "accepted"
+        except Exception as e:
+            got = type(e).__name__
+        sch.run(40)
+        after_cmds = [m.get("type") for (c, s, m) in world.server_cmds if s == side_b][before:]
+        after_cmds = [c for c in after_cmds if c not in ("list",)]
+        n += 1
+        words_rejections[0] += 1
+        if got != "KeyFormatError":
+            viol.append({"key": "C19/reject/choose_words-space/" + got, "msg": "choose_words(%r) -> %s (KeyFormatError expected); afterwards sent %s, code %r" % (words, got, after_cmds, b.code),
+                         "witness": {"spec": spec, "words": words, "cmds_caused": after_cmds}})
+            world.finish()
+            return {"violations": viol, "nontrivial": ["reject", spec["seed"]], "counters": {"rejections": n}, "sample": {"kind": "reject", "accepted": words}}
+        if after_cmds:
+            viol.append({"key": "C19/reject/command-sent-for-malformed-code", "msg": "choose_words(%r) raised but caused %s" % (words, after_cmds), "witness": {"spec": spec}})
     helper.choose_words("purple-sausages")
     sch.run(600, until=lambda: "verifier" in a.kinds() and "verifier" in b.kinds())
     if "verifier" not in a.kinds() or "verifier" not in b.kinds():
@@ -266,7 +289,7 @@ def run_reject(spec):
     b.close()
     sch.drain(60.0, 3000, until=lambda: a.closed and b.closed)
     world.finish()
-    return {"violations": viol, "nontrivial": ["reject", spec["seed"]], "counters": {"rejections": n},
+    return {"violations": viol, "nontrivial": ["reject", spec["seed"]], "counters": {"rejections": n, "typed_words_rejections": words_rejections[0]},
             "sample": {"kind": "reject", "n": n, "examples": [c for (_, c) in bad_codes(world.work_rng, 3)]}}
 
 
